@@ -401,6 +401,7 @@ def correspond(ctx):
     stream_history(ctx)
     stream_axis(ctx)
     stream_allene_wedges(ctx)
+    stream_allene_wedge_model(ctx)
     ctx.cov['programs'] += 3   # ring_attached_cumulenes / ring linkers via chiral_*, add_wedge allene branch, _wedge_map allene orders
     ctx.cov['programs'] += 3   # add_atom_stereo, add_cis_trans_stereo, clean_stereo through the cache layer
     ctx.cov['programs'] += 2   # parser(), postprocess_molecule cis/trans loop
@@ -2588,3 +2589,57 @@ def stream_allene_wedges(ctx):
         ctx.dist('allene-wedge:' + ('FAIL' if fails else 'ok'))
         if fails:
             ctx.fail('C12/allene-wedge-configuration', what, {'kind': 'allene-wedge', 'seed': seed})
+
+
+def stream_allene_wedge_model(ctx):
+    """K: real `add_wedge` (allene branch) and `_wedge_map` allene entries vs the Lean model, integer coordinates,
+    every end kind (two heavy / heavy + explicit H / heavy + implicit H), cumulenes of 3 and 5 carbons"""
+    aw = Stream(ctx, 'add_wedge_allene')
+    ws = Stream(ctx, 'wedge_map_sign_allene')
+    rng = ctx.rng
+    for n_cum in (3, 5):
+        for left in END_KINDS:
+            for right in END_KINDS:
+                for rep in range(2 if ctx.quick else 20):
+                    mol, new = ends_template(n_cum, left, right, rep > 0, rng)
+                    c = new[(n_cum + 1) // 2]
+                    env = mol.stereogenic_allenes.get(c)
+                    if env is None:
+                        continue
+                    lim = rng.choice([2, 5, 30])
+                    for n, a in mol._atoms.items():
+                        a.xy = (rng.randint(-lim, lim), rng.randint(-lim, lim))
+                    t1, t2 = mol._stereo_allenes_terminals[c]
+                    hs = h_atoms(mol)
+                    pts = lambda n: [int(mol._atoms[n].x), int(mol._atoms[n].y)]
+                    subs = [x for x in env if x is not None]
+                    cw = [len(subs)] + [v for x in subs for v in [x] + pts(x)]
+                    for t in (t1, t2):
+                        for m in mol._bonds[t]:
+                            if mol._bonds[t][m] != 1:
+                                continue
+                            for mark in (1, -1):
+                                mol._atoms[c]._stereo = None
+                                mol.flush_cache()
+                                try:
+                                    mol.add_wedge(t, m, mark, clean_cache=False)
+                                    st = mol._atoms[c].stereo
+                                    real = 'ok none' if st is None else f'ok {int(st)}'
+                                except Exception as e:
+                                    real = f'err {type(e).__name__}'
+                                aw.add(' '.join(map(str, ['awa'] + ends_wire(env) + pts(t1) + pts(t2) + cw +
+                                                        [int(t == t1), m, int(mol._atoms[m].atomic_number == 1), mark])), real,
+                                       {'kind': 'allene-wedge-model', 'cum': n_cum, 'left': left, 'right': right})
+                    for s in (True, False):
+                        mol._atoms[c]._stereo = s
+                        mol.flush_cache()
+                        for n_, m_, v in mol._wedge_map:
+                            # the tuple `_wedge_map` chose: wedge n_ -> m_; reference substituent at the other terminal
+                            i = env.index(m_)
+                            x1 = env[1] if i in (0, 2) else env[0]
+                            tb = t2 if n_ == t1 else t1
+                            ws.add(' '.join(map(str, ['wsa'] + ends_wire(env) + lst(hs) + [m_, x1] + pts(n_) + pts(tb) + pts(x1) + [tri(s)])),
+                                   f'ok {v}', {'kind': 'allene-wedge-model', 'cum': n_cum, 'left': left, 'right': right})
+                    mol._atoms[c]._stereo = None
+    aw.run()
+    ws.run()
